@@ -103,8 +103,14 @@ func (p *RunnableProcessor) Process(ctx context.Context, records []opencdc.Recor
 		if len(keptRecords) > 0 {
 			outRecs = p.proc.Process(ctx, keptRecords)
 			if len(outRecs) > len(keptRecords) {
-				return []sdk.ProcessedRecord{
-					sdk.ErrorRecord{Error: cerrors.New("processor returned more records than input")},
+				// The surplus can't be attributed to any record, so none of the
+				// results can be trusted. Fail the records that were handed to
+				// the processor - and only those: the merge below keeps the
+				// records that did not match the condition in their place.
+				errRec := sdk.ErrorRecord{Error: cerrors.New("processor returned more records than input")}
+				outRecs = make([]sdk.ProcessedRecord, len(keptRecords))
+				for i := range outRecs {
+					outRecs[i] = errRec
 				}
 			}
 			if len(outRecs) < len(keptRecords) {
